@@ -1,8 +1,8 @@
 /-
   Props.C02 — append-only log: what was appended is read back record for record, a crash at any byte
   of the record being appended recovers exactly the complete records before it, and what the replay
-  does with the records (database index ignored, everything on database 0, relative deadlines
-  re-based). Witnesses of the inputs on which the full durability statement fails (each one a class
+  does with the records (each record runs in the database named by the last SELECT record — repaired
+  upstream —, relative deadlines are re-based). Witnesses of the inputs on which the full durability statement fails (each one a class
   of Known.lean). Helper lemmas live in Lemmas/PersistLemmas.lean.
 -/
 import SugarModel.Lemmas.PersistLemmas
@@ -120,26 +120,19 @@ theorem append_is_read_back (cur : Int) (db : Nat) (c : List Bytes) (f : Nat) :
 
 /-! ### the replay -/
 
-/-- **The database index of a SELECT record is never used**: whatever (parsable) index the record
-    carries, the replay continues with the same state, and every later record runs exactly as if
-    the SELECT record were absent. -/
-theorem replay_ignores_select_index (now : Int) (x : Bytes) (i : Int) (rest : List LogItem) (s : State)
+/-- **A SELECT record sets the database of the records that follow** (the former
+    `replay_ignores_select_index` — the index was parsed and dropped — was repaired upstream). -/
+theorem replay_select_sets_database (now : Int) (db : Int) (x : Bytes) (i : Int) (rest : List LogItem) (s : State)
     (h : parseInt64 x = some i) :
-    replay now (.cmd [b "SELECT", x] :: rest) s = replay now rest s := by
-  have h1 : (eqFold (b "SELECT") (b "select") && isAscii (b "SELECT")) = true := by decide
-  rw [replay]
-  simp only [List.headD_cons, h1, if_true, List.getD_cons_succ, List.getD_cons_zero, h]
-  intro hnil; simp at hnil
+    replay now db (.cmd [b "SELECT", x] :: rest) s = replay now i rest s := by
+  rw [replay_select, h]
 
 /-- a SELECT record whose index strconv.Atoi rejects ends the replay: `Restore` returns, the rest of
     the log is not read, and the restore still reports success -/
-theorem unparsable_select_ends_replay (now : Int) (x : Bytes) (rest : List LogItem) (s : State)
+theorem unparsable_select_ends_replay (now : Int) (db : Int) (x : Bytes) (rest : List LogItem) (s : State)
     (h : parseInt64 x = none) :
-    replay now (.cmd [b "SELECT", x] :: rest) s = .ok s := by
-  have h1 : (eqFold (b "SELECT") (b "select") && isAscii (b "SELECT")) = true := by decide
-  rw [replay]
-  simp only [List.headD_cons, h1, if_true, List.getD_cons_succ, List.getD_cons_zero, h]
-  intro hnil; simp at hnil
+    replay now db (.cmd [b "SELECT", x] :: rest) s = .ok s := by
+  rw [replay_select, h]
 
 /-- a record is FLUSHALL (the one command that touches every database) -/
 def isFlushAll (it : LogItem) : Prop :=
@@ -147,19 +140,30 @@ def isFlushAll (it : LogItem) : Prop :=
   | .cmd c => eqFold (c.headD []) (b "flushall") = true
   | _ => False
 
-/-- **Replay only ever writes database 0**: whatever SELECT records the log contains, if the replay
-    completes and no record is FLUSHALL, every database other than 0 is exactly as it was before the
-    replay. -/
-theorem replay_only_touches_db0 (now : Int) : ∀ (items : List LogItem) (s s' : State),
-    (∀ it ∈ items, ¬ isFlushAll it) → replay now items s = .ok s' → ∀ j, j ≠ 0 → s'.db j = s.db j := by
+/-- the database index a log item selects, if it is a SELECT record with a parsable index -/
+def selIndex : LogItem → Option Int
+  | .cmd c => if eqFold (c.headD []) (b "select") && isAscii (c.headD []) then parseInt64 (c.getD 1 []) else none
+  | _ => none
+
+/-- the databases that are current at some point of a replay started in `db`: `db` itself and every
+    index named by a SELECT record -/
+def selectedDbs (db : Int) (items : List LogItem) : List Int := db :: items.filterMap selIndex
+
+/-- **Replay touches only the selected databases**: if the replay completes and no record is FLUSHALL,
+    every logical database that is neither the starting one nor named by a SELECT record of the log
+    is exactly as it was before (the former `replay_only_touches_db0` — everything landed in
+    database 0 — described the defect repaired upstream). -/
+theorem replay_touches_only_selected_databases (now : Int) : ∀ (items : List LogItem) (db : Int) (s s' : State),
+    (∀ it ∈ items, ¬ isFlushAll it) → replay now db items s = .ok s' →
+    ∀ j : Nat, (j : Int) ∉ selectedDbs db items → s'.db j = s.db j := by
   intro items
   induction items with
   | nil =>
-    intro s s' _ h j _
+    intro db s s' _ h j _
     simp only [replay, Restored.ok.injEq] at h
     rw [h]
   | cons it rest ih =>
-    intro s s' hn h j hj
+    intro db s s' hn h j hj
     have hrest : ∀ it ∈ rest, ¬ isFlushAll it := fun x hx => hn x (List.mem_cons_of_mem _ hx)
     cases it with
     | scalar => simp [replay] at h
@@ -170,87 +174,121 @@ theorem replay_only_touches_db0 (now : Int) : ∀ (items : List LogItem) (s s' :
       | cons name args =>
         have hnf : ¬ eqFold ((name :: args).headD []) (b "flushall") = true :=
           hn (.cmd (name :: args)) (List.mem_cons_self)
+        simp only [selectedDbs, List.filterMap_cons, selIndex] at hj
         rw [replay] at h
         · split at h
-          · split at h
-            · exact ih s s' hrest h j hj
+          · rename_i hsel
+            simp only [hsel, if_true] at hj
+            split at h
+            · rename_i i hi
+              simp only [hi, List.mem_cons, not_or] at hj
+              exact ih i s s' hrest h j (by simp only [selectedDbs, List.mem_cons, not_or]; exact ⟨hj.2.1, hj.2.2⟩)
             · simp only [Restored.ok.injEq] at h; rw [h]
-          · split at h
+          · rename_i hsel
+            simp only [hsel, Bool.false_eq_true, if_false] at hj
+            split at h
             · simp at h
-            · split at h
+            · rename_i hneg
+              split at h
               · simp at h
-              · rename_i s1 _ hstep
-                have h1 := ih s1 s' hrest h j hj
-                rw [h1]
-                exact Sugar.Props.C20.command_isolated _ s _ s1 _ j hj hnf hstep
-              · simp at h
-              · simp at h
+              · split at h
+                · simp at h
+                · rename_i s1 _ hstep
+                  have h1 := ih db s1 s' hrest h j hj
+                  rw [h1]
+                  have hjd : j ≠ db.toNat := by
+                    simp only [List.mem_cons, not_or] at hj
+                    have := hj.1
+                    omega
+                  exact Sugar.Props.C20.command_isolated _ s _ s1 _ j hjd hnf hstep
+                · simp at h
+                · simp at h
         · intro hnil; simp at hnil
 
-/-- with an empty preamble the restore is the replay of the log items on the empty keyspace -/
+/-- with an empty preamble the restore is the replay of the log items on the empty keyspace, starting
+    in database 0 -/
 theorem restore_empty_preamble (now : Int) (log : Bytes) :
-    restore now (some []) log = replay now (parseLogItems (log.length + 1) log).1 { dbs := [], mem := 0 } := rfl
+    restore now (some []) log = replay now 0 (parseLogItems (log.length + 1) log).1 { dbs := [], mem := 0 } := rfl
 
-/-- **Databases other than 0 come back empty**: whatever was written under SELECT 1, 2, …, a server
-    restored from the log alone (no FLUSHALL record) holds nothing outside database 0. -/
-theorem restored_nonzero_databases_stay_empty (now : Int) (log : Bytes) (s' : State)
+/-- **A database never selected in the log comes back empty**: a server restored from the log alone
+    (no FLUSHALL record) holds nothing outside database 0 and the databases named by SELECT records. -/
+theorem restored_unselected_databases_stay_empty (now : Int) (log : Bytes) (s' : State)
     (hn : ∀ it ∈ (parseLogItems (log.length + 1) log).1, ¬ isFlushAll it)
-    (h : restore now (some []) log = .ok s') (j : Nat) (hj : j ≠ 0) :
+    (h : restore now (some []) log = .ok s') (j : Nat)
+    (hj : (j : Int) ∉ selectedDbs 0 (parseLogItems (log.length + 1) log).1) :
     s'.db j = ⟨[], []⟩ := by
   rw [restore_empty_preamble] at h
-  exact replay_only_touches_db0 now _ _ s' hn h j hj
+  exact replay_touches_only_selected_databases now _ 0 _ s' hn h j hj
 
 /-- **Crash recovery replays exactly the complete records**: restoring from the records of `cs`
     followed by a torn prefix of the record of `c` is the replay of `cs`, nothing else — the recovered
     dataset is the result of a prefix of the executed write sequence. -/
 theorem crash_recovery_replays_prefix (now : Int) (cs : List (List Bytes)) (c : List Bytes) (t u : Bytes)
     (h : t ++ u = encodeCmd c) (hu : u ≠ []) :
-    restore now (some []) ((cs.map encodeCmd).flatten ++ t) = replay now (cs.map .cmd) { dbs := [], mem := 0 } := by
+    restore now (some []) ((cs.map encodeCmd).flatten ++ t) = replay now 0 (cs.map .cmd) { dbs := [], mem := 0 } := by
   rw [restore_empty_preamble, crash_image_items cs c t u _ h hu (restore_fuel_suffices cs t)]
 
 /-- **Acknowledged writes survive restart and crash (string SETs on database 0).** For every sequence
     of `SET key value` commands whose values AdaptType leaves strings, every restart instant `now`
     and every torn tail, the restored server holds under each key exactly the bytes last written to
-    it, no deadline, and nothing else in database 0 and nothing in any other database. -/
+    it, no deadline, nothing else in database 0 and nothing in any other database. -/
 theorem acknowledged_sets_survive_crash_partial (now : Int) (kvs : List (Bytes × Bytes)) (c : List Bytes) (t u : Bytes)
     (hv : ∀ kv ∈ kvs, adaptType kv.2 = .str kv.2) (h : t ++ u = encodeCmd c) (hu : u ≠ []) :
     ∃ s', restore now (some []) (((kvs.map fun kv => [b "SET", kv.1, kv.2]).map encodeCmd).flatten ++ t) = .ok s' ∧
-      ∀ x, s'.lookup 0 x = (lastWrite kvs (fun _ => none) x).map fun v => ⟨.str v, none⟩ := by
+      (∀ x, s'.lookup 0 x = (lastWrite kvs (fun _ => none) x).map fun v => ⟨.str v, none⟩) ∧
+      (∀ j, j ≠ 0 → s'.db j = ⟨[], []⟩) := by
   rw [crash_recovery_replays_prefix now _ c t u h hu, List.map_map]
-  exact replay_sets now kvs { dbs := [], mem := 0 } (fun _ => none) hv (fun x => rfl)
+  exact replay_sets now 0 kvs { dbs := [], mem := 0 } (fun _ => none) hv (fun x => rfl)
 
-/-- **A write made under SELECT db is restored into database 0** — the universally quantified
-    statement of the defect: for every database db ≥ 1 (up to the int64 range), every key and string value, every
-    restart instant, the log written by `SELECT db; SET k v` restores a server that holds `k` in
-    database 0 and nothing in database `db`. -/
-theorem nonzero_database_write_replayed_into_db0 (now : Int) (cur : Int) (db : Nat) (k v : Bytes)
-    (h1 : 1 ≤ db) (h9 : (db : Int) ≤ maxInt64) (hc : (db : Int) ≠ cur) (hv : adaptType v = .str v) :
-    ∃ s', restore now (some []) (logAppend cur db (encodeCmd [b "SET", k, v])).1 = .ok s' ∧
-      s'.lookup 0 k = some ⟨.str v, none⟩ ∧ s'.lookup db k = none := by
-  have hne : ((db : Int) != cur) = true := by simpa using hc
-  have hlog : (logAppend cur db (encodeCmd [b "SET", k, v])).1 =
-      ([[b "SELECT", fmtInt db], [b "SET", k, v]].map encodeCmd).flatten ++ [] := by
-    simp only [logAppend, hne, if_true, selectMarker_eq_record db]
-    simp
-  obtain ⟨s', hr, hl⟩ := replay_sets now [(k, v)] { dbs := [], mem := 0 } (fun _ => none)
-    (by intro kv hkv; simp only [List.mem_singleton] at hkv; subst hkv; exact hv) (fun _ => rfl)
-  simp only [List.map_cons, List.map_nil] at hr
-  have hres : restore now (some []) (logAppend cur db (encodeCmd [b "SET", k, v])).1 = .ok s' := by
-    rw [hlog, crash_recovery_replays_prefix now _ [] [] (encodeCmd []) rfl (by decide)]
-    simp only [List.map_cons, List.map_nil]
-    rw [replay_ignores_select_index now _ _ _ _ (parseInt64_fmtNat db h9)]
-    exact hr
-  refine ⟨s', hres, ?_, ?_⟩
+/-- **Acknowledged writes survive restart and crash in every logical database (string SETs).** For
+    every database `d`, every sequence of `SET key value` commands executed under `SELECT d` (the log
+    holds the marker of `d`, then the records) whose values AdaptType leaves strings, every restart
+    instant and every torn tail: the restored server holds, in database `d`, under each key exactly
+    the bytes last written to it, and nothing in any other database — keys, values and
+    logical-database placement are kept. -/
+theorem acknowledged_sets_in_database_survive_crash_partial (now : Int) (d : Nat) (hd : (d : Int) ≤ maxInt64)
+    (kvs : List (Bytes × Bytes)) (c : List Bytes) (t u : Bytes)
+    (hv : ∀ kv ∈ kvs, adaptType kv.2 = .str kv.2) (h : t ++ u = encodeCmd c) (hu : u ≠ []) :
+    ∃ s', restore now (some [])
+        (selectMarker d ++ (((kvs.map fun kv => [b "SET", kv.1, kv.2]).map encodeCmd).flatten ++ t)) = .ok s' ∧
+      (∀ x, s'.lookup d x = (lastWrite kvs (fun _ => none) x).map fun v => ⟨.str v, none⟩) ∧
+      (∀ j, j ≠ d → s'.db j = ⟨[], []⟩) := by
+  have hlog : selectMarker d ++ (((kvs.map fun kv => [b "SET", kv.1, kv.2]).map encodeCmd).flatten ++ t) =
+      (([b "SELECT", fmtInt d] :: kvs.map fun kv => [b "SET", kv.1, kv.2]).map encodeCmd).flatten ++ t := by
+    rw [selectMarker_eq_record]; simp
+  rw [hlog, crash_recovery_replays_prefix now _ c t u h hu]
+  simp only [List.map_cons, List.map_map]
+  rw [replay_select_sets_database now 0 _ _ _ _ (parseInt64_fmtNat d hd)]
+  exact replay_sets now d kvs { dbs := [], mem := 0 } (fun _ => none) hv (fun x => rfl)
+
+/-- **A write made under SELECT db lands in database db** — for every database `db` (up to the int64
+    range), every key and string value, every restart instant: the log `SELECT db; SET k v` restores a
+    server that holds `k ↦ v` in database `db` and nothing in any other database, in particular
+    nothing in database 0 when `db ≠ 0` (the former `nonzero_database_write_replayed_into_db0`
+    described the defect repaired upstream). -/
+theorem write_under_select_lands_in_that_database (now : Int) (db : Nat) (k v : Bytes)
+    (h9 : (db : Int) ≤ maxInt64) (hv : adaptType v = .str v) :
+    ∃ s', restore now (some []) (selectMarker db ++ encodeCmd [b "SET", k, v]) = .ok s' ∧
+      s'.lookup db k = some ⟨.str v, none⟩ ∧ (∀ j, j ≠ db → s'.db j = ⟨[], []⟩) ∧
+      (db ≠ 0 → s'.lookup 0 k = none) := by
+  obtain ⟨s', hr, hl, hf⟩ := acknowledged_sets_in_database_survive_crash_partial now db h9 [(k, v)] [] [] (encodeCmd [])
+    (by intro kv hkv; simp only [List.mem_singleton] at hkv; subst hkv; exact hv) rfl (by decide)
+  simp only [List.map_cons, List.map_nil, List.flatten_cons, List.flatten_nil, List.append_nil] at hr
+  refine ⟨s', hr, ?_, hf, ?_⟩
   · rw [hl k]; simp [lastWrite]
-  · have hnf : ∀ it ∈ [LogItem.cmd [b "SET", k, v]], ¬ isFlushAll it := by
-      intro it hit
-      simp only [List.mem_singleton] at hit
-      subst hit
-      simp only [isFlushAll, List.headD_cons]
-      decide
-    have := replay_only_touches_db0 now _ _ s' hnf hr db (by omega)
+  · intro h0
     unfold State.lookup
-    rw [this]; rfl
+    rw [hf 0 (Ne.symm h0)]; rfl
+
+/-- the same through `Store.Write`: on a fresh store (current index -1) the first write under database
+    `db` is logged as marker + record, and restores into database `db` -/
+theorem first_write_lands_in_its_database (now : Int) (db : Nat) (k v : Bytes)
+    (h9 : (db : Int) ≤ maxInt64) (hv : adaptType v = .str v) :
+    ∃ s', restore now (some []) (logAppend (-1) db (encodeCmd [b "SET", k, v])).1 = .ok s' ∧
+      s'.lookup db k = some ⟨.str v, none⟩ ∧ (∀ j, j ≠ db → s'.db j = ⟨[], []⟩) := by
+  rw [logAppend_fresh]
+  obtain ⟨s', h1, h2, h3, _⟩ := write_under_select_lands_in_that_database now db k v h9 hv
+  exact ⟨s', h1, h2, h3⟩
 
 /-- **A relative deadline is re-based at restore time** — the universally quantified statement of
     the defect: for every key, string value, span `n` and restart instant `now`, the log record
@@ -260,11 +298,11 @@ theorem relative_expiry_rebased (now : Int) (k v arg : Bytes) (n : Int) (hv : ad
     (hp : parseInt64 arg = some n) (hn : n.natAbs ≤ 4000000000000) :
     ∃ s', restore now (some []) (encodeCmd [b "SET", k, v, b "PX", arg]) = .ok s' ∧
       s'.lookup 0 k = some ⟨.str v, some (now + n)⟩ := by
-  obtain ⟨s', h1, h2⟩ := replay_set_px now k v arg n hv hp hn
+  obtain ⟨s', h1, h2⟩ := replay_set_px now 0 k v arg n hv hp hn
   refine ⟨s', ?_, h2⟩
   have := crash_recovery_replays_prefix now [[b "SET", k, v, b "PX", arg]] [] [] (encodeCmd []) rfl (by decide)
   simp only [List.map_cons, List.map_nil, List.flatten_cons, List.flatten_nil, List.append_nil] at this
-  rw [this, h1]
+  rw [this]; exact h1
 
 /-- … hence two restarts at different instants serve two different deadlines for the same log -/
 theorem relative_expiry_depends_on_restart_time (now1 now2 : Int) (k v arg : Bytes) (n : Int)
@@ -313,14 +351,17 @@ theorem torn_tail_blocks_later_appends (cs : List (List Bytes)) (db : Int) (late
 example : ∃ t u, t ++ u = encodeCmd [b "SET", b "k", b "v"] ∧ u ≠ [] ∧ t.length = 7 :=
   ⟨(encodeCmd [b "SET", b "k", b "v"]).take 7, (encodeCmd [b "SET", b "k", b "v"]).drop 7, by decide⟩
 
-/-! ### where the full statement fails (model witnesses; each is a class of Known.lean) -/
-
-/-- a write made under SELECT 3 is replayed into database 0: database 3 comes back empty -/
-theorem nonzero_database_write_replayed_into_db0_witness :
-    let log := (logAppend (-1) 3 (encodeCmd [b "SET", b "k", b "v"])).1
+/-- two databases are restored separately: `SELECT 1; SET k a; SELECT 0; SET k b` restores `k ↦ a`
+    in database 1 and `k ↦ b` in database 0 (replaces the former witness that a write under SELECT 3
+    landed in database 0; repaired upstream) -/
+theorem two_databases_restored_separately_witness :
+    let log := selectMarker 1 ++ encodeCmd [b "SET", b "k", b "a"] ++ selectMarker 0 ++ encodeCmd [b "SET", b "k", b "b"]
     (match restore 1000 (some []) log with
-     | .ok s => (s.lookup 0 (b "k"), s.lookup 3 (b "k")) | _ => (none, none)) = (some ⟨.str (b "v"), none⟩, none) := by
+     | .ok s => (s.lookup 1 (b "k"), s.lookup 0 (b "k"), s.lookup 2 (b "k")) | _ => (none, none, none)) =
+      (some ⟨.str (b "a"), none⟩, some ⟨.str (b "b"), none⟩, none) := by
   decide +kernel
+
+/-! ### where the full statement fails (model witnesses; each is a class of Known.lean) -/
 
 /-- a torn record followed by later appends (a marker and a complete record, as after a crash and
     restart): only the record before the torn one is recovered, the later acknowledged write is lost -/
@@ -339,8 +380,8 @@ theorem toplevel_bulk_panics_witness :
   decide +kernel
 
 /-- `replay` of a top-level bulk string panics whatever follows and whatever the state -/
-theorem toplevel_bulk_panics (now : Int) (rest : List LogItem) (s : State) :
-    (match replay now (.scalar :: rest) s with | .panic => true | _ => false) = true := by
+theorem toplevel_bulk_panics (now : Int) (db : Int) (rest : List LogItem) (s : State) :
+    (match replay now db (.scalar :: rest) s with | .panic => true | _ => false) = true := by
   simp [replay]
 
 /-- a relative deadline is re-based at restore time: `SET k v PX 1000` restored at 5000 expires at
